@@ -23,7 +23,11 @@ fn check_fold<const D: usize>(shape: [usize; D]) {
     let scs = Scs::new(data.clone(), Shape(shape.to_vec())).unwrap();
     let fill = f64::from_bits(kani::any());
     let folded = scs.fold().into_spectrum(fill);
-    assert!(folded.shape().as_ref() == &shape[..], "folding keeps the shape");
+    let mut j = 0;
+    while j < D {
+        assert!(folded.shape()[j] == shape[j], "folding keeps the shape");
+        j += 1;
+    }
     // T = maximum total allele count
     let mut t = 0;
     let mut j = 0;
